@@ -21,6 +21,7 @@ type Clause struct {
 }
 
 type LoopContract struct {
+	OnSkip     []*Clause // must hold at the end of every iteration that wrote nothing (a `continue` path)
 	Invariants []*Clause
 	Decreases  *Clause   // first component (kept for reporting)
 	DecList    []*Clause // lexicographic measure components
@@ -58,7 +59,7 @@ type Contract struct {
 var clauseKeywords = map[string]bool{
 	"func": true, "mode": true, "props": true, "trusted": true, "requires": true, "ensures": true,
 	"assigns": true, "nopanic": true, "pure": true, "loop": true, "invariant": true, "decreases": true,
-	"note": true, "funcfield": true, "iface": true, "global": true, "let": true, "oracle": true, "covers": true, "def": true, "callreq": true, "sendreq": true, "preserves": true, "retreq": true, "recvassume": true,
+	"note": true, "funcfield": true, "iface": true, "global": true, "let": true, "oracle": true, "covers": true, "def": true, "callreq": true, "sendreq": true, "preserves": true, "retreq": true, "recvassume": true, "onskip": true,
 }
 
 // parseContractFile reads //@ lines. pkgPath is the import path of the
@@ -275,6 +276,15 @@ func parseContractLines(sc *bufio.Scanner, path, pkgPath string) ([]*Contract, e
 			}
 			curLoop = &LoopContract{}
 			cur.Loops[n] = curLoop
+		case "onskip":
+			if curLoop == nil {
+				return nil, fmt.Errorf("%s:%d: onskip outside loop", path, rc.line)
+			}
+			c, err := mk("onskip", rc)
+			if err != nil {
+				return nil, err
+			}
+			curLoop.OnSkip = append(curLoop.OnSkip, c)
 		case "invariant", "decreases":
 			if curLoop == nil {
 				return nil, fmt.Errorf("%s:%d: %s outside loop", path, rc.line, rc.kw)
